@@ -125,6 +125,11 @@ func StyleAttr(r *rand.Rand, known []StyleDecl, clean bool) string {
 	if clean {
 		// the canonical layout, or the same declarations the way people and tools really write them:
 		// one per line, no space after the colon is handled above, a final semi-colon, blank lines
+		if r.Intn(15) == 0 {
+			// the last value ends in escaped backslashes (complete escapes, an even number of bytes)
+			decls[len(decls)-1] += Pick(r, []string{"\\\\", "\\\\\\\\"})
+			return strings.Join(decls, "; ") + Pick(r, []string{";", "", "; "})
+		}
 		switch r.Intn(8) {
 		case 0:
 			return strings.Join(decls, ";\n") + ";\n"
